@@ -748,7 +748,7 @@ func (ex *Exec) checkLeafLocks(fr *Frame, st *State, cc *ssa.CallCommon, fn *ssa
 		if cond.IsTrue() {
 			continue
 		}
-		ex.oblige("leaflock@call", shortCallee(name)+":"+key, pos, []string{"C14"}, st, cond)
+		ex.oblige("leaflock@call", shortCallee(name)+":"+key, pos, ex.lockProps(), st, cond)
 	}
 }
 
@@ -760,7 +760,7 @@ func (ex *Exec) selfDeadlock(st *State, l *Term, cond *Term) {
 	if ex.curFrame != nil {
 		pos = ex.curFrame.fn.Pos()
 	}
-	ex.oblige("deadlock:self", ex.lockName(l), pos, []string{"C14"}, st, cond)
+	ex.oblige("deadlock:self", ex.lockName(l), pos, ex.lockProps(), st, cond)
 }
 
 // lockName derives a printable, stable name from a lock term.
@@ -1461,7 +1461,7 @@ func (ex *Exec) backEdge(fr *Frame, li *loopInfo, st *State) {
 	}
 	c := ts.And(conds...)
 	if !c.IsTrue() {
-		ex.oblige("lockbalance@loop", fmt.Sprintf("loop%d", li.index), pos, []string{"C14"}, st, c)
+		ex.oblige("lockbalance@loop", fmt.Sprintf("loop%d", li.index), pos, ex.lockProps(), st, c)
 	}
 	if len(st.Defers) != ls.nDefers {
 		ex.note("%s: defer inside loop %d", FuncName(fr.fn), li.index)
